@@ -130,6 +130,7 @@ typedef struct {
     int      kx;
     uint16_t suite;          /* 0 = default for kx/version */
     int      client_auth;    /* server requests+validates client cert */
+    int      ocsp;           /* the client asks for a stapled OCSP response (status_request) */
     int      early_data;     /* 1.3 PSK: 1 = credential and server session allow early data; 2 = the credential allows it but the server SESSION disabled it (tls13SessionMaxEarlyData 0) */
     int      resume13;       /* TLS 1.3: world_init first runs a complete connection (server session with early data enabled when early_data != 0) so that the sessions under test resume with its NewSessionTicket */
     int      early_send;     /* the honest client sends one early-data record right after its ClientHello */
